@@ -171,7 +171,9 @@ def cli_case(draw):
     for i in range(draw(st.integers(1, 4))):
         r, _ = draw(gen.planted_read(sn, min(k, 3)))
         reads.append(r)
-    return {"sub": "cli", "adapter": spec, "reads": reads}
+    # side files must not change how adapters are searched
+    side = draw(st.sampled_from([None, None, None, "--wildcard-file", "--rest-file"]))
+    return {"sub": "cli", "adapter": spec, "reads": reads, "side": side}
 
 
 def check_cli(case, ctx):
@@ -190,6 +192,9 @@ def check_cli(case, ctx):
     if not spec["indels"]:
         args.append("--no-indels")
     recs = [(f"r{i}", s, "I" * len(s)) for i, s in enumerate(case["reads"])]
+    if case.get("side"):
+        args += [case["side"], "side.txt"]
+        ctx.label("cli:" + case["side"])
     args += ["--info-file", "info.tsv", "-o", "out.fastq", "in.fastq"]
     r = cli.run(args, {"in.fastq": cli.fastq(recs)})
     if r.exit != 0:
@@ -268,7 +273,8 @@ def check_history(case, ctx):
 def multi_case(draw_tier=None):
     from checks import c02
 
-    return c02.cli_case().map(lambda sc: dict(sc, sub="multi"))
+    return st.tuples(c02.cli_case(), st.sampled_from([None, None, None, "--wildcard-file", "--rest-file"])).map(
+        lambda t: dict(t[0], sub="multi", side=t[1]))
 
 
 def check_multi(sc, ctx):
@@ -279,6 +285,9 @@ def check_multi(sc, ctx):
     args, files = c02.render_cli(sc)
     recs = [(f"r{i}x", s, None) for i, s in enumerate(sc["reads"])]
     files["in.fasta"] = cli.fasta(recs)
+    if sc.get("side"):
+        args += [sc["side"], "side.txt"]
+        ctx.label("multi:" + sc["side"])
     args += ["--info-file", "info.tsv", "-o", "out.fasta", "in.fasta"]
     r = cli.run(args, files)
     if r.exit != 0:
